@@ -22,6 +22,7 @@ CATALOGUES = {
         "C|A|+|B|+|1|2M", "C|A|-|B|+|0|*|ID:Z:c1",
         "P|p1|A+,B+|2M1D1M", "P|p2|B-,A-|*", "P|p4|A+,B+,C-|*,*",
         "P|p5|A+,C+,A+|1M,*,*", "P|p6|C+|*", "S|E|*|aa:A:c|bb:i:1|cc:J:[1, 2]",
+        "P|B|A+,B+|*", "L|A|+|C|+|*|ID:Z:C",
         "#| comment", "H|xx:i:1", "H|TS:i:1", "H|yy:i:2|TS:i:2",
     ], ids=["A", "B", "C", "p1", "p2", "l1", "c1", "zz", "1", "3"], unused=True,
         renames=[("A", "D"), ("A", "B"), ("B", "p1"), ("p1", "q"), ("l1", "l2"), ("C", "zz"), ("A", "4"), ("3", "5"),
@@ -54,6 +55,7 @@ CATALOGUES = {
         "X|custom|1", "S|o1|3|*", "S|2|3|*", "E|7|a+|2+|0|1|2|3$|*",
         "# gfa2 comment", "H|TS:i:10", "S|f|3|*|aa:A:c|bb:i:1",
         "G|g3|a+|c-|7|*", "G|*|a+|b-|3|1", "F|a|y+|0|1|0|1|*", "U|u5|a e1", "O|o8|a+ e3+ c+",
+        "E|c|a+|c+|0|1|0|1|*", "G|b|a+|b-|4|*", "U|u6|a u6", "O|o9|a+ o9+",
     ], ids=["a", "b", "c", "e1", "e4", "g1", "o1", "o2", "u1", "u3", "zz", "2"], unused=True,
         renames=[("a", "d"), ("a", "b"), ("e1", "e9"), ("g1", "g9"), ("o1", "u1"), ("u1", "u2"), ("b", "e1"),
                  ("a", "8"), ("e1", "9"), ("2", "11"), ("a", "*"), ("e1", "*"), ("e4", "*"), ("g1", "*"), ("o1", "*"),
@@ -259,29 +261,49 @@ def find_named(gfa, ident):
     return None
 
 
+def _apply_add(gfapy, gfa, op, version):
+    if op.get("held"):
+        # the line object that an earlier call disconnected (kept by the harness), with its
+        # positional fields edited while it was outside the Gfa, is added again: for the
+        # specification this is the addition of the line as it reads now
+        held = gfa.__dict__.setdefault("_verif_held", {})
+        o = held.pop(op["held"], None)
+        if o is None:
+            gfa.add_line(op["text"])
+        else:
+            old, new = op["held"].split("\t"), op["text"].split("\t")
+            names = o.positional_fieldnames
+            for i in range(1, min(len(old), len(new), len(names) + 1)):
+                if old[i] != new[i]:
+                    o.set(names[i - 1], new[i])
+            gfa.add_line(o)
+    elif op.get("inst"):
+        # a Line instance instead of text: same specified action
+        gfa.add_line(gfapy.Line(op["text"], vlevel=gfa.vlevel, dialect=gfa.dialect))
+    else:
+        gfa.add_line(op["text"])
+
+
 def apply_op(gfapy, gfa, op, version):
     k = op["k"]
     if k == "add":
-        if op.get("held"):
-            # the line object that an earlier call disconnected (kept by the harness), with its
-            # positional fields edited while it was outside the Gfa, is added again: for the
-            # specification this is the addition of the line as it reads now
-            held = gfa.__dict__.setdefault("_verif_held", {})
-            o = held.pop(op["held"], None)
-            if o is None:
-                gfa.add_line(op["text"])
-            else:
-                old, new = op["held"].split("\t"), op["text"].split("\t")
-                names = o.positional_fieldnames
-                for i in range(1, min(len(old), len(new), len(names) + 1)):
-                    if old[i] != new[i]:
-                        o.set(names[i - 1], new[i])
-                gfa.add_line(o)
-        elif op.get("inst"):
-            # a Line instance instead of text: same specified action
-            gfa.add_line(gfapy.Line(op["text"], vlevel=gfa.vlevel, dialect=gfa.dialect))
-        else:
-            gfa.add_line(op["text"])
+        f0 = op["text"].split("\t")
+        prev_obj = None
+        if f0[0] in ("O", "U", "S", "E", "G", "P") and len(f0) > 1 and f0[1] != "*":
+            try:
+                prev_obj = gfa.line(f0[1])
+            except gfapy.Error:
+                prev_obj = None
+        _apply_add(gfapy, gfa, op, version)
+        if prev_obj is not None and gfa.line(f0[1]) is not prev_obj:
+            # the object that carried the identifier has been superseded (placeholder, earlier group line)
+            gfa.__dict__.setdefault("_verif_stale", {})[f0[1]] = prev_obj
+    elif k == "stale":
+        # a handle obtained before the line was superseded is used to rename: the Gfa is not concerned
+        o = gfa.__dict__.get("_verif_stale", {}).get(op["id"])
+        if o is None:
+            raise gfapy.NotFoundError("no superseded object for " + op["id"])
+        o.name = op["id2"]
     elif k == "addcl":
         o = find_named(gfa, op["id"])
         if o is None or o.virtual:
@@ -754,6 +776,9 @@ def rename_jobs(catname, n, seed, vlevel=1, kind="renall"):
                 h.append(dict(k="ren", text="", id=fresh[k], id2=nm, n=0))
             if rnd.random() < 0.2:
                 h.append(A(rnd.choice(adds)))
+            if rnd.random() < 0.3:
+                # a handle kept from before the line was superseded is used to rename
+                h.append(dict(k="stale", text="", id=rnd.choice(names), id2=rnd.choice(fresh + names)))
         jobs.append(dict(id="%s-%s-%d" % (kind, catname, i), kind=kind, cfg=dict(version=cat["version"], vlevel=vlevel),
                          ops=h, universe=sorted(set(universe_of(cat)) | set(fresh))))
     return jobs
